@@ -154,4 +154,12 @@ theorem C01_translated_printMix (m : PMix) (ext : Bool) : printMixX m ext = prin
   unfold printMixX printMix
   cases ext <;> cases ha : m.abs <;> simp <;> rfl
 
+/-- **C01 / C11 (uniform, unconditional for whole-number bounds)**: `uniform(m, n)` printed from natural bounds reads back as the same
+bounds — no side condition left -/
+theorem C01_uniform_roundtrip_nat (m n : Nat) :
+    parseDist (printDist { fam := .uniform, params := [(m : Rat), (n : Rat)] }) = .ok { fam := .uniform, params := [(m : Rat), (n : Rat)] } := by
+  refine C01_uniform_roundtrip _ _ ?_ ?_ (truncRat_nat m) (truncRat_nat n)
+  · rw [intStr_nat]; exact TokOK_nat m
+  · rw [intStr_nat]; exact TokOK_nat n
+
 end GBS.P
